@@ -389,6 +389,11 @@ fn c07_run<H: HK>(case: &CoreCase) -> Result<CaseInfo, Violation> {
         return Err(v(format!("verify_update gives {} but reference says {}", hx8(&s_upd), hx8(&want_root))));
     }
     info.add("paths", terms.len() as u64);
+    info.max("max_multiproof_siblings", multi.siblings.len() as u64);
+    info.max("max_multiproof_paths", terms.len() as u64);
+    if multi.siblings.len() > 65_535 {
+        info.bump("multiproofs_with_more_than_65535_siblings");
+    }
     info.add("queries_in_scope", answered);
     info.add("ops", ops.len() as u64);
     info.nontrivial = terms.len() >= 2 && !ops.is_empty() && multi.siblings.len() > 0;
@@ -962,6 +967,33 @@ pub fn run_c18(case: &CoreCase) -> Result<CaseInfo, Violation> {
     dispatch(case, |c, sha2| if sha2 { adversarial::<S2>(c, true) } else { adversarial::<B3>(c, true) })
 }
 
+/// Forced shape "block-sized multi-proof": n pairs of keys sharing 248..255 bits, all 2n keys queried, so that the
+/// aggregated proof has hundreds of paths and more than 2^16 siblings (per-path quantities stay <= 256, offsets into
+/// the proof's sibling vector do not).
+pub fn large_case_strategy() -> impl Strategy<Value = CoreCase> {
+    (any::<u64>(), 270usize..=330, prop::collection::vec(any::<u64>(), 330), 1u8..=8, prop::collection::vec((any::<u16>(), prop::bool::weighted(0.3), any::<u64>(), prop::option::weighted(0.7, any::<u8>())), 1..=6)).prop_map(
+        |(salt, n, seeds, twin_bits, ops)| {
+            let mut keys = Vec::with_capacity(2 * n);
+            for s in seeds.iter().take(n) {
+                keys.push(gen::KeyRecipe { cluster: 0, plen: 0, suffix: gen::Suffix::Rand(*s) });
+                keys.push(gen::KeyRecipe { cluster: 0, plen: 0, suffix: gen::Suffix::Twin(*s, twin_bits) });
+            }
+            let len = 2 * n as u32;
+            // one query per member (index j of the sorted set), key kept as is
+            let queries = (0..len).map(|j| ((((j * 65536) + len - 1) / len).min(65535) as u16, 300u16, 0u8)).collect();
+            CoreCase {
+                salt,
+                sha2: false,
+                keys,
+                queries,
+                ops: ops.into_iter().map(|(term, own, suffix, val)| OpSpec { term, own, suffix, val }).collect(),
+                muts: Vec::new(),
+                root_mode: 0,
+            }
+        },
+    )
+}
+
 pub struct C07;
 impl Check for C07 {
     type Case = CoreCase;
@@ -974,13 +1006,14 @@ impl Check for C07 {
          prefix, random) confirm_value / confirm_nonexistence (searching and _with_index forms) equal the answers of the individual VerifiedPathProof (also for the neighbouring \
          leaf's value hash under an absent key) and the truth; keys outside every aggregated path give KeyOutOfScope; verify_multi_proof_update over generated in-scope sorted write \
          sets (inserts under terminators, splits of leaves, overwrites, deletions) equals verify_update over the per-path updates and the reference root of the updated set. \
-         Non-trivial = >= 2 paths, >= 1 op, >= 1 sibling in the multi-proof; distinct = distinct serialized case".into()
+         One case in 20 000 is a block-sized multi-proof: 270-330 pairs of keys sharing 248-255 bits, all of them proven (540-660 paths, 65 000-85 000 siblings), with 1-6 writes. Non-trivial = >= 2 paths, >= 1 op, >= 1 sibling in the multi-proof; distinct = distinct serialized case".into()
     }
     fn cases(tier: Tier) -> u32 {
         tier.pick(480000, 4000000)
     }
     fn strategy(_tier: Tier) -> BoxedStrategy<CoreCase> {
-        case_strategy(40, 0).boxed()
+        // 1 case in 20000 is a block-sized multi-proof (hundreds of paths, > 65 536 siblings)
+        prop_oneof![19999 => case_strategy(40, 0), 1 => large_case_strategy()].boxed()
     }
     fn run(case: &CoreCase, _ctx: &Ctx) -> Result<CaseInfo, Violation> {
         dispatch(case, |c, sha2| if sha2 { c07_run::<S2>(c) } else { c07_run::<B3>(c) })
